@@ -105,8 +105,8 @@ def _cache_filters(fn):
     if _n(ast.unparse(body[1].value)) != 'completed,halted,updated':
         raise TieBroken('_maybe_check_against_cache: returns ' + ast.unparse(body[1].value))
     guard = ast.unparse(body[0].test)
-    if 'self._caching' not in guard:
-        raise TieBroken('_maybe_check_against_cache: guard ' + guard)
+    if _n(guard) != _n('self._caching and self._cache_completed is not None and self._cache_halted is not None'):
+        raise TieBroken('_maybe_check_against_cache: guard is `' + guard + '` (expected: caching enabled and both memories exist)')
     out = {}
     for st in body[0].body:
         if not (isinstance(st, ast.Assign) and len(st.targets) == 1 and isinstance(st.targets[0], ast.Name)
@@ -348,6 +348,35 @@ def _patterns_phase(fn):
     return dec, shape
 
 
+
+def _memorise(cls, src):
+    fn = find_func(cls, '_maybe_cache')
+    body = strip_doc(fn.body)
+    if len(body) != 1 or not isinstance(body[0], ast.If) or body[0].orelse or \
+            _n(ast.unparse(body[0].test)) != _n('self._caching and self._cache_completed is not None and self._cache_halted is not None'):
+        raise TieBroken('_maybe_cache: expected a single `if caching enabled and both memories exist:`')
+    gp = find_func(cls, '_get_pattern')
+    gpb = [ast.unparse(x) for x in strip_doc(gp.body)]
+    if gpb != ['if phenomenon_name in self._phenomena:\n    for pattern in self._phenomena[phenomenon_name].patterns:\n'
+               '        if pattern.name == pattern_name:\n            return pattern', 'return None']:
+        raise TieBroken('_get_pattern: no longer "first pattern of that name among the named phenomenon\'s own patterns": ' + ' ; '.join(gpb)[:120])
+    got = [ast.unparse(x) for x in body[0].body]
+    exp = ['for c in completed:\n    self._cache_completed.append(c)', 'for h in halted:\n    self._cache_halted.append(h)']
+    if got != exp:
+        raise TieBroken('_maybe_cache: body changed: ' + ' ; '.join(got)[:120])
+    init = find_func(cls, '__init__')
+    text = ast.get_source_segment(src, init)
+    flat = _n(text)
+    need = [_n('self._caching: bool = (max_cache > 0)'), _n('deque(maxlen=max_cache) if self._caching else None')]
+    alt0 = _n('self._caching = max_cache > 0')
+    if not (need[0] in flat or alt0 in flat or _n('self._caching: bool = max_cache > 0') in flat):
+        raise TieBroken('__init__: `_caching` is no longer `max_cache > 0`')
+    if flat.count(need[1]) != 2:
+        raise TieBroken('__init__: the two memories are no longer `deque(maxlen=max_cache) if self._caching else None`')
+    return ['completed->completed-memory:append-each', 'halted->halted-memory:append-each', 'caching:=max_cache>0',
+            'memories:deque(maxlen=max_cache)', 'get_pattern:first-of-that-name-in-the-named-phenomenon']
+
+
 def translate(repo):
     src = (repo / SRC).read_text()
     tree = ast.parse(src)
@@ -363,6 +392,8 @@ def translate(repo):
     plists = _process_event_lists(fns['_process_event'])
     rcls, rshape = _runs_phase(fns['_check_against_runs'])
     pdec, pshape = _patterns_phase(fns['_check_against_patterns'])
+    mshape = _memorise(cls, src)
+    hashes[f"{SRC}::BoboDecider._maybe_cache"] = sha(ast.get_source_segment(src, find_func(cls, '_maybe_cache')))
 
     def strs(l):
         return '[' + ', '.join(f'"{x}"' for x in l) + ']'
@@ -410,6 +441,9 @@ def startDecision (haltedNew completeNew singleton noRuns : Bool) : StartAct :=
 
 /-- the shape of `_check_against_patterns`. -/
 def patternsShape : List String := {strs(pshape)}
+
+/-- `_maybe_cache` and the construction of the two memories. -/
+def memoriseShape : List String := {strs(mshape)}
 
 end Bobo.Gen.DeciderFrag
 """
